@@ -130,9 +130,10 @@ type c03ExpEntry struct {
 	Tp   uint8
 }
 type c03ExpStream struct {
-	Labels  []c03Label // the label set that identifies the stream (after the protocol's label rule)
-	Ttl     uint16
-	Entries []c03ExpEntry
+	Labels   []c03Label // the label set that identifies the stream (after the protocol's label rule)
+	Ttl      uint16
+	Entries  []c03ExpEntry
+	Repaired bool // the label list was not valid UTF-8 before validUTF8Labels
 }
 
 var c03SanRe = regexp.MustCompile("(^[^a-zA-Z_]|[^a-zA-Z0-9_])") // harness' own copy of the sanitiser
@@ -169,6 +170,16 @@ func c03Effective(ctxTtl uint16, ls []c03Label) ([]c03Label, uint16) {
 		out = append(out, l)
 	}
 	return out, ttl
+}
+
+// c03ValidUTF8: the rule of validUTF8Labels — invalid UTF-8 in a label name or value (raw bytes, or a rune cut by the
+// 100-byte truncation) is replaced, one U+FFFD per run of invalid bytes, before the identity is taken.
+func c03ValidUTF8(ls []c03Label) []c03Label {
+	out := make([]c03Label, len(ls))
+	for i, l := range ls {
+		out[i] = c03Label{strings.ToValidUTF8(l.K, "\uFFFD"), strings.ToValidUTF8(l.V, "\uFFFD")}
+	}
+	return out
 }
 
 func c03OtlpKey(k string) string {
@@ -263,7 +274,8 @@ func (d *c03Doc) expected(ctxTtl uint16) []c03ExpStream {
 	var out []c03ExpStream
 	add := func(ls []c03Label, es []c03ExpEntry) {
 		eff, ttl := c03Effective(ctxTtl, ls)
-		out = append(out, c03ExpStream{eff, ttl, es})
+		v := c03ValidUTF8(eff)
+		out = append(out, c03ExpStream{v, ttl, es, fmt.Sprint(v) != fmt.Sprint(eff)})
 	}
 	switch d.Proto {
 	case "loki":
